@@ -57,6 +57,9 @@ type Case struct {
 	Time   string `json:"time"`   // valid | nyv | expired
 	Rev    string `json:"rev"`    // no | yes | err
 	Rekey  bool   `json:"rekey"`
+	// RA: the issuing token carries step.ra, so the database record has RaInfo and the lookup by
+	// database id returns the provisioner inside a wrappedProvisioner
+	RA bool `json:"ra,omitempty"`
 	// Entry "" = direct call of Authority.Renew/Rekey; "token" = POST /1.0/renew handler with a
 	// renew token (Authorization: Bearer, x5cInsecure) built as Tok says.
 	Entry string `json:"entry,omitempty"`
@@ -264,6 +267,9 @@ func modelFields(c Case, nyv, exp bool) string {
 	case "badext+db":
 		dbf, ext = provAt(c, true), "bad"
 	}
+	if c.RA && dbf != "none" && dbf != "gone" {
+		dbf += "+ra" // found, and returned RA-wrapped
+	}
 	return fmt.Sprintf("rev=%s db=%s ext=%s nyv=%s exp=%s", c.Rev, dbf, ext, common.B(nyv), common.B(exp))
 }
 
@@ -283,7 +289,12 @@ func (w *world) issue(c Case) prepared {
 	ca := w.issuers[c.Issue]
 	counter++
 	name := fmt.Sprintf("h%d.c09.test", counter)
-	tok, err := ca.Token(fixture.TokenOpts{Subject: name, SANs: []string{name}, Issuer: provName, Key: w.key1})
+	var extraClaims map[string]any
+	if c.RA {
+		extraClaims = map[string]any{"step": map[string]any{"ra": map[string]any{
+			"authorityId": "ra-authority", "provisionerId": "ra-prov-id", "provisionerType": "JWK", "provisionerName": "ra-prov"}}}
+	}
+	tok, err := ca.Token(fixture.TokenOpts{Subject: name, SANs: []string{name}, Issuer: provName, Key: w.key1, Extra: extraClaims})
 	if err != nil {
 		return prepared{c: c, err: "token"}
 	}
@@ -324,6 +335,9 @@ func (w *world) issue(c Case) prepared {
 	wantRec := c.Issue == "both" || c.Issue == "dbonly" || c.Issue == "badext+db"
 	if hasRec != wantRec {
 		return prepared{c: c, err: "setup-db"}
+	}
+	if hasRec && (data.RaInfo != nil) != c.RA {
+		return prepared{c: c, err: "setup-ra"}
 	}
 	if c.Rev == "yes" {
 		ctx := provisioner.NewContextWithMethod(context.Background(), provisioner.RevokeMethod)
@@ -505,6 +519,10 @@ func fixedCases() []Case {
 			add(Case{Issue: is, State: st, Custom: "n", Time: "valid", Rev: "no", Entry: "token", Tok: "ok"})
 		}
 	}
+	for _, st := range states {
+		add(Case{Issue: "both", State: st, Custom: "n", Time: "valid", Rev: "no", RA: true})
+		add(Case{Issue: "dbonly", State: st, D: true, Custom: "n", Time: "valid", Rev: "no", RA: true, Rekey: true})
+	}
 	for _, rv := range revs {
 		add(Case{Issue: "both", State: "present", Custom: "n", Time: "valid", Rev: rv})
 		add(Case{Issue: "none", State: "removed", Custom: "a", Time: "valid", Rev: rv, Rekey: true})
@@ -524,6 +542,7 @@ func randomCase(r *common.Rng) Case {
 	if r.Chance(1, 6) {
 		c.Rev = common.Pick(r, revs)
 	}
+	c.RA = r.Chance(1, 6)
 	if r.Chance(1, 4) { // the renew-token entry (renew only)
 		c.Entry, c.Tok, c.Rekey = "token", common.Pick(r, tokKinds), false
 	}
